@@ -301,7 +301,7 @@ def write_unit(u: Unit):
                                                                                 z3.Select(p.st.ghost["FS"], ws[0][1]) == ws[0][4] if ok else z3.BoolVal(False)), {}, WRITE_REPLAY)
                     if name in LOSSLESS and ok:
                         u.oblige(p, f"write.file_holds_the_given_array[{name},auto={auto}]", ws[0][4] == FSM.content_of(z3.IntVal(p.ex.data.addr)), {}, HEADER_REPLAY)
-            u.static(f"write.cover[{name},auto={auto}]", n_ret >= 1, fi.qualname, f"{n_ret} normal paths")
+            u.guard(f"write.cover[{name},auto={auto}]", n_ret >= 1, fi.qualname, f"{n_ret} normal paths")
     # the writer METHODS of Outputs (public, deprecated in favour of the functions above, still complete writers of their own)
     oci = u.cls(f"{OO}::Outputs")
     for name, is_array in METHOD_WRITERS:
